@@ -102,6 +102,36 @@ and gsel_of (x : sexp) : gtype =
         | y -> raise (Sexp_error ("variant: " ^ print_sexp y))) vs)
   | y -> raise (Sexp_error ("gsel: " ^ print_sexp y))
 
+(* S3: the projection skeleton of a shape.  Keys whose value stems from another call (field resolvers,
+   @requires fields) and keys without a protobuf name are left out (not examined). *)
+let examined tag = String.length tag >= 5 && String.sub tag 0 5 = "plain"
+let rec ptype_of (x : sexp) : ptype =
+  match x with
+  | L [A "nn"; t] -> ptype_of t
+  | L [A "l"; t] -> PList (ptype_of t)
+  | L [A "sc"; _] | L (A "en" :: _) -> PScalar
+  | L [A "ob"; s] -> psel_of s
+  | _ -> PSkip
+and psel_of (x : sexp) : ptype =
+  match x with
+  | L (A "sel" :: vs) ->
+    PObj (List.map (function
+        | L (A "v" :: L names :: fields) ->
+          (List.map (fun n -> b (str n)) names,
+           List.filter_map (function
+               | L [A "k"; S k; _; t; A tag; S proto; _] when examined tag && proto <> "" -> Some ((b k, b proto), ptype_of t)
+               | _ -> None) fields)
+        | y -> raise (Sexp_error ("variant: " ^ print_sexp y))) vs)
+  | y -> raise (Sexp_error ("psel: " ^ print_sexp y))
+
+let show_pfail ((path, why) : (pstep list * n)) : string =
+  let p = String.concat "" (List.map (function SKey k -> "." ^ string_of_bytes k | SIdx i -> "[" ^ string_of_int (int_of_nat i) ^ "]") path) in
+  let w = (match int_of_n why with
+      | 1 -> "service-sent-no-value-but-answer-not-null" | 2 -> "service-sent-a-value-but-answer-null"
+      | 3 -> "not-a-list" | 4 -> "list-length-differs-from-service-data" | 5 -> "leaf-differs-from-service-data"
+      | 6 -> "not-an-object" | _ -> "?") in
+  p ^ " why=" ^ w
+
 (* untrusted diagnosis for the detail text of an S1 failure: where and why conf_b is false *)
 let rec diagnose (path : string) (t : sexp) (j : json) : string option =
   let sub t' = diagnose path t' j in
@@ -245,6 +275,7 @@ let handle (x : sexp) : (string * string) list =
         | L [A id; m] -> Hashtbl.replace resp_tbl (int_of_string id) (lazy (pmsg_of m))
         | y -> raise (Sexp_error ("resp: " ^ print_sexp y))) resps;
     let res = ref [] in
+    let s3n = ref 0 in   (* root keys / entities whose value was compared with the service's datum (S3) *)
     let add st d = res := (st, d) :: !res in
     let infos = List.map (fun run ->
         match run with
@@ -284,6 +315,7 @@ let handle (x : sexp) : (string * string) list =
            | None -> add "error" ("run without outcome" ^ ctx); info
            | Some [jo] ->
              let j = json_of jo in
+             let rcalls = ref [] in
              let svcerr = (match find_field "svcerr" rest with Some [v] -> sbool v | _ -> false) in
              let errs = jerrors j in
              (* model tie *)
@@ -294,7 +326,8 @@ let handle (x : sexp) : (string * string) list =
                  | _ -> add "error" ("run without calls" ^ ctx))
               | Some calls ->
                 let cs = List.map (function
-                    | L [A "call"; A kind; L path; plan; A id; L idx; A nreps; _meth; ents] ->
+                    | L [A "call"; A kind; L path; plan; A id; L idx; A nreps; S meth; ents] ->
+                      rcalls := (kind, meth, int_of_string id, List.map (fun i -> int_of_string (atom i)) idx) :: !rcalls;
                       { c_kind = (match kind with "std" -> CStd | "entity" -> CEntity | "resolve" -> CResolve | "required" -> CRequired
                                                 | k -> raise (Sexp_error ("call kind " ^ k)));
                         c_path = List.map (fun p -> b (str p)) path;
@@ -332,6 +365,46 @@ let handle (x : sexp) : (string * string) list =
                      add "specfail" (Printf.sprintf "shape/mismatch at=%s out=%s%s"
                                        (match shape_sx with Some s -> (match diagnose "$" s d with Some x -> x | None -> "? why=?") | None -> "?")
                                        (clip 900 (show_json d)) ctx);
+                   (* S3 on the implementation's output: every root key against the answer of its RPC, every
+                      entity against the item of its lookup's answer *)
+                   (match shape_sx, d with
+                    | Some (L (A "sel" :: L (A "v" :: _ :: entries) :: _)), JObj members ->
+                      let calls = List.rev !rcalls in
+                      let resp id = Lazy.force (Hashtbl.find resp_tbl id) in
+                      List.iter (function
+                          | L [A "k"; S key; _; L [A "ents"; _; item]; _; _; _] ->
+                            (match (try Some (List.assoc (b key) members) with Not_found -> None) with
+                             | Some (JArr ents) ->
+                               let pt = ptype_of item in
+                               List.iter (fun (kind, _, id, idx) ->
+                                   if kind = "entity" then
+                                     (match field_by_name (b "result") (resp id) with
+                                      | Some (FListM ms) when List.length ms = List.length idx ->
+                                        List.iter2 (fun m pos ->
+                                            if pos < List.length ents then
+                                              (incr s3n; match proj_chk em pt (FMsg m) (List.nth ents pos) with
+                                               | Some f -> add "specfail" (Printf.sprintf "projection/mismatch at=$.%s[%d]%s out=%s%s" key pos (show_pfail f) (clip 900 (show_json d)) ctx)
+                                               | None -> ())) ms idx
+                                      | _ -> ())) calls
+                             | _ -> ())
+                          | L [A "k"; S key; _; t; A tag; S proto; S rpc] when rpc <> "" && examined tag ->
+                            (match (try Some (List.assoc (b key) members) with Not_found -> None) with
+                             | Some jv ->
+                               let pt = ptype_of t in
+                               let cands = List.filter_map (fun (kind, meth, id, _) ->
+                                   if kind = "std" && meth = rpc then
+                                     (match field_by_name (b proto) (resp id) with Some fv -> Some (proj_chk em pt fv jv) | None -> None)
+                                   else None) calls in
+                               (* two root fields may go to the same RPC with other arguments: the value must be the
+                                  projection of one of the answers *)
+                               if cands <> [] then incr s3n;
+                               if cands <> [] && not (List.mem None cands) then
+                                 (match List.hd cands with
+                                  | Some f -> add "specfail" (Printf.sprintf "projection/mismatch at=$.%s%s out=%s%s" key (show_pfail f) (clip 900 (show_json d)) ctx)
+                                  | None -> ())
+                             | None -> ())
+                          | _ -> ()) entries
+                    | _ -> ());
                    { info with data = Some d }
                  | None, _ -> add "specfail" ("shape/no-data" ^ ctx); info
                  | _, None -> add "error" ("no shape" ^ ctx); info))
@@ -352,7 +425,7 @@ let handle (x : sexp) : (string * string) list =
                add "specfail" (Printf.sprintf "consistency/%s base_q=%s q=%s base_out=%s out=%s" o.label (quote_string (clip 500 base.q)) (quote_string (clip 500 o.q))
                                  (clip 500 (match base.data with Some d -> show_json d | None -> "")) (clip 500 (match o.data with Some d -> show_json d | None -> "")))
            | _ -> ()) others);
-    if !res = [] then [("ok", if sbool nt then "nt" else "tr")] else List.rev !res
+    if !res = [] then [("ok", (if sbool nt then "nt" else "tr") ^ " s3=" ^ string_of_int !s3n)] else List.rev !res
   | _ -> [("error", "unrecognised case")]
 
 let () = run_lines Sys.argv.(1) Sys.argv.(2) handle
